@@ -76,6 +76,26 @@ CHECKS = {
     technique="Coq proof (store invariant) + history correspondence + multi-process determinism runs",
     ref="4 C12"),
 
+
+ "C05": dict(
+    text="PROOF (coq/props/C05.v): plumbing between a constructor call and the one-node model handed to ONNX inference, for EVERY "
+         "inference oracle: slots_roundtrip (positional binding recovers each argument's schema slot for all signatures/argument "
+         "patterns, no over/under-trimming), attributes and constant operands forwarded, untyped input => no check and untyped outputs, "
+         "raises iff infer rejects, invented dims stripped; refutation for BatchNormalization inference mode. CORRESPONDENCE: captured "
+         "singleton models + outcomes vs the model on ONNX's node-test corpus replayed through all five ai.onnx modules, mutated "
+         "ill-typed calls and calling forms. ORACLE: onnx strict inference on an independently built one-node model.",
+    note=TB + "ONNX's C++ inference is an oracle (Section variable); ai.onnx.ml modules not covered by C05 (their routines are C06's).",
+    technique="Coq proof (slot binding round trip, parametric in the inference oracle) + corpus replay correspondence + independent strict-inference oracle",
+    ref="4 C05"),
+ "C18": dict(
+    text="PROOF (coq/props/C18.v): custom operators emitted verbatim (name, domain, inputs/outputs in declared order, nothing trimmed, "
+         "attributes under their own names), domain imported once at the maximum required version, hooks alone determine output "
+         "types/values (missing => untyped + warning, values kept only if conforming), never converted. CORRESPONDENCE: node classes "
+         "generated at run time over signatures x attribute kinds x domains/versions x hook behaviours x positions in a program. "
+         "ORACLE: independent decoding of the returned ModelProto + onnx.checker.",
+    note=TB + "Function subclasses and sequence/optional hook values not generated.",
+    technique="Coq proof + correspondence with run-time generated operator classes",
+    ref="4 C18"),
  "C06": dict(
     text="PROOF (coq/props/C06.v): infer_sound_<op> for every hand-written inference routine (ArrayFeatureExtractor, Binarizer, "
          "CategoryMapper, Imputer, OneHotEncoder, Scaler, TreeEnsembleRegressor, Compress, repaired Loop merge): runtime values given by a "
